@@ -354,12 +354,19 @@ func Maven(t *kernel.Tape, k Knobs) *uni.Spec {
 	for i := range trip {
 		trip[i] = drawTriples(t, t.Range(1, k.MaxVers), 4)
 	}
+	registries := t.Bool(1, 4)
 	for i := 0; i < n; i++ {
 		p := uni.Pkg{Name: names[i]}
 		for _, c := range trip[i] {
 			v := uni.Ver{V: mavenVer(c)}
 			if hasVersion(p.Vers, v.V) {
 				continue
+			}
+			if registries && t.Bool(1, 3) {
+				// where the version can be fetched and which repositories its
+				// pom declares for its dependencies (multi-registry resolution)
+				regs := []string{"r1", "r2", "r1|r2", "dep:r2", "r1|dep:r2", "default:r1|r1", "https://repo.maven.apache.org/maven2/", "r2|dep:r1|dep:r2"}
+				v.Attrs = append(v.Attrs, kv(int(version.Registries), regs[t.Choose(len(regs))]))
 			}
 			nr := t.Range(0, k.MaxReqs)
 			if i == 0 && nr == 0 {
